@@ -182,6 +182,12 @@ func (c *Ctx) matrix() *matrix {
 			defer wg.Done()
 			defer func() { <-sem }()
 			ev := newEvaluator(c)
+			// receiver: a zero-valued decoder (no logger, debug off): option-dependent branches are decided
+			// by C16 to be logging only, so the validator's verdict is the one of the default configuration
+			var recv Val = OpaqueV{"decoder"}
+			if pt, ok := vfn.Params[0].Type().(*types.Pointer); ok {
+				recv = PtrV{C: &Cell{V: ev.zero(pt.Elem()), ReadOnly: true, Name: "decoder"}}
+			}
 			tbl := &[256][256]bool{}
 			nAcc, nEv := 0, 0
 			firstErr := ""
@@ -198,7 +204,7 @@ func (c *Ctx) matrix() *matrix {
 							fd.F[i] = mkInt(uint64(db), fdSt.Field(i).Type())
 						}
 					}
-					res, err := ev.Eval(vfn, []Val{OpaqueV{"decoder"}, mkInt(uint64(fc.Msg), mesgNumT.Type()), fd})
+					res, err := ev.Eval(vfn, []Val{recv, mkInt(uint64(fc.Msg), mesgNumT.Type()), fd})
 					nEv++
 					if err != nil {
 						if firstErr == "" {
